@@ -41,6 +41,12 @@ def kernel_cases(ctx):
     if ctx.quick:
         full = rng.sample(full, 1400)
     cases = []
+    # regression corpus (runs first): inputs of repaired defects, kept so that the defect is reported if it returns
+    #  - 25b4a83: the checker took the global phase from a small first entry (matrix entry [0][0] ~ 7e-6 here)
+    for d in ("zxz", "zyz", "xzx", "yzy", "xyx", "yxy", "mckay"):
+        for ax in ([-1.0, 1.0, 1e-05], [1e-05, -1.0, 1.0], [1.0, 1e-05, -1.0], [1.0, 1.0, 1e-4], [-1.0, 1e-6, 1.0]):
+            for a in (3.141592652589793, -3.141592652589793, 3.1415926525, 3.14159264):
+                cases.append({"nq": 1, "nb": 0, "specs": [["bsr", 0, ax, a, 0.0]], "pass": ["decompose", d]})
     for d, ax, a in full:
         ph = rng.choice([0.0, PI / 2, rng.uniform(-PI, PI)])
         if d == "cnot":
